@@ -590,7 +590,7 @@ def run(ctx):
     def replay_in_model(label):
         """quick tier: the generic alg x enc matrix is replayed in Coq every 2nd time (C04 replays the same joserfc
         behaviour in full); the targeted families are always replayed; the reference exchange always runs"""
-        if not ctx.quick or label.split(":")[0] in ("party-info", "direct-among-several", "spelling", "multi", "DEF"):
+        if not ctx.quick or label.split(":")[0] in ("party-info", "direct-among-several", "spelling", "multi", "DEF", "1pu-skid"):
             return True
         thin[0] += 1
         return thin[0] % 2 == 0
@@ -626,7 +626,7 @@ def run(ctx):
 
     # ------------------------------------------------------------- direction 2: reference -> joserfc
     def r2j(ser, enc, algs, label, crv="P-256", zip_=False, aad=None, apu=None, apv=None, spell=None,
-            alg_in_protected=True, unprotected=None):
+            alg_in_protected=True, unprotected=None, extra_protected=None):
         ctx.note_case(("r2j", label, spell[0] if spell else "-"))
         bump("ref->joserfc:" + ser)
         keys = [K.for_alg(a, enc, crv) for a in algs]
@@ -638,7 +638,7 @@ def run(ctx):
                "spelling": spell[0] if spell else "canonical"}
         try:
             token = encrypt(ser, enc, recips, pt, aad=aad, zip_=zip_, spell=spell[1] if spell else None,
-                            unprotected=unprotected, alg_in_protected=alg_in_protected)
+                            unprotected=unprotected, alg_in_protected=alg_in_protected, extra_protected=extra_protected)
         except Exception as e:  # noqa
             raise RuntimeError("reference encrypt failed for %s: %r" % (label, e))
         obs, (dlog, nondet) = J.do_decrypt(J.dec_ser(ser), token, keys, sender=sender)
@@ -705,6 +705,32 @@ def run(ctx):
                         j2r(spec, tag)
                         r2j(s, e, [a], tag, crv=crv, unprotected=dict(un), alg_in_protected=pn % 2 == 0)
                     bump("party-info")
+
+    # ECDH-1PU (direct and +A*KW): "skid" present / absent x "apu" present / absent x "apv"; the Concat KDF party info
+    # comes from apu / apv ONLY (draft-madden-jose-ecdh-1pu-04 section 2.2: skid is just a key hint)
+    sk_n = 0
+    for a in J.PU_ALGS:
+        for s in sers:
+            for skid in (None, "alice-key-1", "\u00e9-\u2603"):
+                for u in (None, b"Alice", b"\xfb\xff\x00"):
+                    for v in ((None, b"Bob") if not ctx.quick else (b"Bob" if sk_n % 2 else None,)):
+                        sk_n += 1
+                        if ctx.quick and skid is not None and skid != "alice-key-1" and sk_n % 3:
+                            continue
+                        e = rng.choice(J.CBC_ENCS) if a != "ECDH-1PU" else rng.choice(J.ALL_ENCS)
+                        crv = J.ALL_CURVES[sk_n % 6]
+                        tag = "1pu-skid:%s/%s/%s/skid=%s/apu=%s/apv=%s" % (a, e, s, skid is not None, u is not None, v is not None)
+                        spec = J.make_spec(K, rng, s, [a], e, crv=crv, plaintext=b"skid and party info", apu=u, apv=v,
+                                           alg_in="protected" if sk_n % 2 else "auto")
+                        if skid is not None:
+                            if s == "compact" or spec["recips"][0][0] is None:
+                                spec["protected"]["skid"] = skid
+                            else:
+                                spec["recips"][0][0]["skid"] = skid
+                        j2r(spec, tag)
+                        r2j(s, e, [a], tag, crv=crv, apu=u, apv=v, alg_in_protected=True,
+                            extra_protected=({"skid": skid} if skid is not None else None))
+                        bump("1pu-skid")
 
     # zip = DEF over plaintext classes (empty, tiny, repetitive, incompressible, 100 KB) through the STRICT reference
     zclasses = [("empty", b""), ("one", b"x"), ("tiny", b"ab"), ("block", bytes(16)), ("text", b"to be or not to be " * 40),
